@@ -299,7 +299,8 @@ def parent(args):
         known_lines.append(line)
 
     # --- 3. generated search, sharded -------------------------------------------------------------
-    budget = args.examples or prop.BUDGET[tier]
+    scale = float(os.environ.get("VERIF_BUDGET_SCALE", "1") or "1")      # development aid: shrink budgets for a dry run
+    budget = args.examples or max(16, int(prop.BUDGET[tier] * scale))
     nsh = args.shards or getattr(prop, "SHARDS", NSHARDS_DEFAULT)
     nsh = max(1, min(nsh, budget))
     per = (budget + nsh - 1) // nsh
@@ -391,6 +392,35 @@ def parent(args):
         elif o["status"] == "harness_error":
             harness_errors.append("shard %d: %s" % (s, o["error"]))
 
+    # --- 4. coverage-guided stage (thorough tier; properties that define FUZZ; needs atheris in /verif/.deps) ---------
+    fuzz_info = None
+    fz = int(getattr(prop, "FUZZ", {}).get(tier, 0) * scale) if not args.collect and not args.examples else 0
+    if fz and not violations:
+        if not os.path.isdir(os.path.join(VERIF, ".deps", "atheris")):
+            notes.append("coverage-guided stage skipped: atheris is not installed in /verif/.deps (setup_cmd installs it offline)")
+        else:
+            nfz = 8
+            fprocs = []
+            for j in range(nfz):
+                outf = os.path.join(workdir, "fuzz_%d.json" % j)
+                cmd = [sys.executable, "-m", "vt.fuzz", pid, str(fz // nfz), str(vseed * 101 + j), outf]
+                fprocs.append((outf, subprocess.Popen(cmd, cwd=VERIF, env=env, stdout=subprocess.DEVNULL, stderr=subprocess.DEVNULL)))
+            fuzz_info = {"engine": "atheris/libFuzzer with the property's structured byte decoder (from_bytes), coverage feedback from torchtt/*",
+                         "processes": nfz, "executions": 0, "nontrivial_executions": 0}
+            for outf, p in fprocs:
+                try:
+                    p.wait(timeout=3600)
+                except subprocess.TimeoutExpired:
+                    p.kill()
+                if os.path.exists(outf):
+                    with open(outf) as f:
+                        o = json.load(f)
+                    fuzz_info["executions"] += o["executions"]
+                    fuzz_info["nontrivial_executions"] += o["nontrivial"]
+                    if o.get("fail"):
+                        rp = write_replay(pid, o["fail"]["case"], o["fail"]["check"], o["fail"]["msg"], o["fail"].get("bucket"))
+                        violations.append((rp, o["fail"]["check"], "[coverage-guided stage] " + o["fail"]["msg"]))
+
     if not args.keep:
         shutil.rmtree(workdir, ignore_errors=True)
         try:
@@ -425,7 +455,7 @@ def parent(args):
     ev = {
         "property_id": pid, "tier": tier, "seed": vseed, "level": "exploration",
         "coverage": {
-            "evaluations": merged.evals + reg_run,
+            "evaluations": merged.evals + reg_run + (fuzz_info["executions"] if fuzz_info else 0),
             "distinct_nontrivial": len(sigs),
             "rule": prop.RULE,
             "samples": samples,
@@ -438,6 +468,7 @@ def parent(args):
             "library_exceptions": merged.libexc,
             "shards": nsh, "examples_per_shard": per,
             "exhaustive": False,
+            "coverage_guided_stage": fuzz_info,
             "small_scope_enumeration": {"cases_enumerated_completely": enumerated,
                                         "what": getattr(prop, "ENUM_DOC", "")} if enumerated else None,
             "notes": notes + vac,
